@@ -406,6 +406,57 @@ fn check_identity(case: &Json, stats: &mut Stats) -> Verdict {
     }
 }
 
+/// embedding sessions (inputs parsed and run one at a time into one interpreter; the host keeps the
+/// result of each input and hands it to the next one as `last`): the value a declaration statement
+/// yields is the object the declared name is bound to. The last input yields (l == r, l != r, r == l).
+const IDENTITY_SESSIONS: [(&[&str], bool); 12] = [
+    (&["f := () -> int { return 1; }", "(last == f, last != f, f == last)"], true),
+    (&["f := (n: int) -> any { if n == 0 { return f; } return f(n - 1); }", "(last == f(2), last != f, f == last)"], true),
+    (&["f := () -> int { return 1; }", "g := last; (g == f, g != f, f == g)"], true),
+    (&["f := () -> int { return 1; }", "m := match last { (f) => true, => false, }; (m, !m, m)"], true),
+    (&["f := () -> int { return 1; }", "g := () -> int { return 1; }", "(last == f, last != f, f == last)"], false),
+    (&["c := mut 1", "(last == c, last != c, c == last)"], true),
+    (&["c := mut 1", "last = 5; (last == c, *c != 5, c == last)"], true),
+    (&["it := [1]~", "(last == it, last != it, it == last)"], true),
+    (&["m := mod { f := () -> int { return 1; }; }", "(last.f == m.f, last.f != m.f, m == last)"], true),
+    (&["s := struct{f := () -> int { return 1; }, c := mut 0}", "(last == s, last.f != s.f, s.c == last.c)"], true),
+    (&["(a, b) := (mut 1, () -> int { return 1; })", "(last.0 == a, last.1 != b, b == last.1)"], true),
+    (&["f := () -> int { return 1; }", "f", "(last == f, last != f, f == last)"], true),
+];
+
+fn check_identity_session(case: &Json, stats: &mut Stats) -> Verdict {
+    let inputs: Vec<&str> = case["inputs"].as_array().map(|a| a.iter().filter_map(|i| i.as_str()).collect()).unwrap_or_default();
+    let same = case["same"].as_bool().unwrap_or(true);
+    crate::run::default_budget();
+    let mut interp = crate::exec::safe_interpreter();
+    let mut last = Outcome::Rejected("no input".into());
+    for input in &inputs {
+        stats.eval();
+        last = match crate::run::parse_guarded(&interp, input) {
+            Ok(Ok(code)) => crate::run::exec_unscoped_guarded(&code, &mut interp),
+            Ok(Err(k)) => Outcome::Rejected(k),
+            Err(o) => o,
+        };
+        match &last {
+            Outcome::Value(v) => interp.insert("last".into(), v.clone()),
+            o => return fail("C19:identity-session:setup", format!("input `{input}` of {inputs:?}: {}", o.short())),
+        }
+    }
+    stats.label("identity: embedding session");
+    stats.nontrivial(&inputs.join(" ;; "));
+    let want = lit::tuple(vec![json!(same), json!(!same), json!(same)]);
+    match &last {
+        Outcome::Value(got) if lit::from_var(got).as_ref() == Some(&want) => {
+            stats.sample(3, || json!({"inputs": inputs, "same_object": same}));
+            Verdict::Pass
+        }
+        o => fail(
+            format!("C19:identity-session:{}", if same { "same-object" } else { "different-objects" }),
+            format!("inputs {inputs:?} (each input's result is handed to the next as `last`): {} (expected {})", o.short(), lit::show(&want)),
+        ),
+    }
+}
+
 /// hand-written identity programs: (program yielding (l == r, l != r, r == l), same object?)
 fn identity_catalogue() -> Vec<(&'static str, bool)> {
     vec![
@@ -475,6 +526,9 @@ impl Property for C19Prop {
         if case["kind"] == "identity" {
             return check_identity(case, stats);
         }
+        if case["kind"] == "identity-session" {
+            return check_identity_session(case, stats);
+        }
         let (x, y) = (&case["x"], &case["y"]);
         let (px, py) = (case["px"].as_str().unwrap_or("literal"), case["py"].as_str().unwrap_or("literal"));
         let salt = case["salt"].as_u64().unwrap_or(0) as usize;
@@ -527,6 +581,11 @@ impl Property for C19Prop {
             (format!("{PRELUDE}cmp := (l: any, r: any) -> any {{ return (l == r, l != r, r == l); }}; cmp({ex}, {ey})"), equal, "runtime-triple"),
             (format!("{PRELUDE}neg := (l: any, r: any) -> any {{ return (!(l != r), !(l == r), !(!(l == r))); }}; neg({ex}, {ey})"), equal, "runtime-triple"),
             (format!("{PRELUDE}(!(({ex}) != ({ey})), !(({ex}) == ({ey})), !(!(({ey}) == ({ex}))))"), equal, "runtime-triple"),
+            // the negation law written as chains (comparisons are one level, grouped left to right):
+            // `l == r != false` is `(l == r) != false`
+            (format!("{PRELUDE}l := idf({ex}); r := idf({ey}); (l == r != false, l != r == true, l == r == true)"), equal, "runtime-triple"),
+            (format!("{PRELUDE}(({ex}) == ({ey}) != false, ({ex}) != ({ey}) == true, ({ey}) == ({ex}) == true)"), equal, "runtime-triple"),
+            (format!("{PRELUDE}l := idf({ex}); r := idf({ey}); (l != r != true, l == r != true, l != r == false)"), equal, "runtime-triple"),
         ];
         for (program, want, how) in checks {
             stats.eval();
@@ -600,6 +659,9 @@ pub fn run(session: &Session) -> i32 {
     }
     for (program, same) in identity_catalogue() {
         cases.push(json!({"kind": "identity", "program": program, "same": same}));
+    }
+    for (inputs, same) in IDENTITY_SESSIONS {
+        cases.push(json!({"kind": "identity-session", "inputs": inputs, "same": same}));
     }
     // every pair of ways of handing one object on, for every kind of object, compared in every way
     for c in 0..CTORS.len() {
